@@ -39,7 +39,7 @@ def run_demo(path):
 
 
 def run_check(pid, tier, seed):
-    env = dict(os.environ, VERIF_SEED=str(seed))
+    env = dict(os.environ, VERIF_SEED=str(seed), VERIF_REPO=REPO)
     t0 = time.time()
     p = sh([os.path.join(ROOT, "check"), pid, "--tier", tier], env=env, cwd=ROOT, timeout=3600)
     sigs = [l.strip() for l in p.stdout.splitlines() if l.strip().startswith("signature:")]
@@ -55,11 +55,16 @@ def main():
     ap.add_argument("--seed", type=int, default=0)
     ap.add_argument("--skip-tests", action="store_true")
     ap.add_argument("--dir", default="seeded", help="directory (under /verif) holding <name>/patch.diff + meta.json")
+    ap.add_argument("--repo", default="/repo", help="tree to patch: /repo itself (default) or a scratch worktree of it "
+                    "outside /repo and /verif (lets the battery run while /repo is being worked on)")
+    ap.add_argument("--results", default=None, help="results file (default <dir>/RESULTS.json)")
     a = ap.parse_args()
+    global REPO
+    REPO = a.repo
     sdir = os.path.join(ROOT, a.dir)
     names = a.names or sorted(d for d in os.listdir(sdir) if os.path.isfile(os.path.join(sdir, d, "patch.diff")))
     results = {}
-    respath = os.path.join(sdir, "RESULTS.json")
+    respath = a.results or os.path.join(sdir, "RESULTS.json")
     if os.path.exists(respath):
         results = json.load(open(respath))
     if not repo_clean():
